@@ -104,6 +104,13 @@ Theorem C02_cat : forall t others d bs' i,
 Proof. exact cat_acts_on_batch_dims. Qed.
 Print Assumptions C02_cat.
 
+(* repeat_interleave on a rank-0 batch (tensordict's coded extension: the batch is treated as one element) *)
+Theorem C02_repeat_interleave_rank0 : forall t r d,
+  wf t -> is_node t -> top_shape t = [] -> 0 <= r -> (d = None \/ d = Some 0 \/ d = Some (-1)) ->
+  exists t', td_repeat_interleave t r d = Done t' /\ top_shape t' = [r] /\ rel [] [r] t t' /\ wf t'.
+Proof. exact repeat_interleave_rank0. Qed.
+Print Assumptions C02_repeat_interleave_rank0.
+
 (* masked_select by a mask of the batch shape holding cnt True entries *)
 Theorem C02_masked_select : forall t cnt,
   wf t -> is_node t -> 0 <= cnt ->
@@ -164,6 +171,15 @@ Theorem C02_names_expand : forall bs nm ents shape t',
   root_names t' = Some (repeat None (List.length shape - List.length bs) ++ names_list nm (List.length bs))%list /\ top_shape t' = shape.
 Proof. exact names_expand. Qed.
 Print Assumptions C02_names_expand.
+
+Theorem C02_names_flatten : forall bs nm ents a b i j t',
+  bs <> [] -> wrap_dim a (List.length bs) = Ok i -> wrap_dim b (List.length bs) = Ok j -> (i < j)%nat ->
+  names_wf nm bs -> has_names nm = true ->
+  apply (Node bs nm ents) (OFlatten a b) = Done t' ->
+  exists nl', root_names t' = Some nl' /\
+              travels (flatten_prov (List.length bs) i j) bs (top_shape t') (names_list nm (List.length bs)) nl'.
+Proof. exact names_flatten. Qed.
+Print Assumptions C02_names_flatten.
 
 (* squeeze() (dim=None): names of nested nodes are erased (C02-a): the statement "names travel" is refuted there *)
 Theorem C02_names_squeeze_all_refuted :
